@@ -425,7 +425,7 @@ def textFromEventDict(eventDict: EventDict) -> Optional[str]:
                 why = "Unhandled Error"
             try:
                 traceback = cast(failure.Failure, eventDict["failure"]).getTraceback()
-            except Exception as e:
+            except BaseException as e:
                 traceback = "(unable to obtain traceback): " + str(e)
             text = why + "\n" + traceback
         elif "format" in eventDict:
